@@ -130,46 +130,59 @@ def valueEnd : TS → TS
   | .objValue => .objComma
   | s => s
 
+/-- one iteration of the `for` loop in `Decoder.Token()` -/
+inductive TokStep where
+  | eof                                              -- `peek` hit the end of input
+  | bad (closer : Bool)                              -- the call fails
+  | emit (t : Tok) (st : TS) (stack : List TS) (rest : Bytes)  -- a token is delivered
+  | skip (st : TS) (stack : List TS) (rest : Bytes)  -- `:` or `,` consumed, loop again
+  deriving Repr, DecidableEq
+
+def tokStep (st : TS) (stack : List TS) (inp : Bytes) : TokStep :=
+  match skipWs inp with
+  | [] => .eof
+  | c :: rest =>
+    if c = 0x5B then
+      if valueAllowed st then .emit .lk .arrStart (st :: stack) rest else .bad false
+    else if c = 0x5D then
+      if st = .arrStart ∨ st = .arrComma then
+        match stack with
+        | [] => .bad true
+        | s :: stack' => .emit .rk (valueEnd s) stack' rest
+      else .bad true
+    else if c = 0x7B then
+      if valueAllowed st then .emit .lb .objStart (st :: stack) rest else .bad false
+    else if c = 0x7D then
+      if st = .objStart ∨ st = .objComma then
+        match stack with
+        | [] => .bad true
+        | s :: stack' => .emit .rb (valueEnd s) stack' rest
+      else .bad true
+    else if c = 0x3A then
+      if st = .objColon then .skip .objValue stack rest else .bad false
+    else if c = 0x2C then
+      if st = .arrComma then .skip .arrValue stack rest
+      else if st = .objComma then .skip .objKey stack rest
+      else .bad false
+    else if c = 0x22 ∧ (st = .objStart ∨ st = .objKey) then
+      match scanScalar (c :: rest) with
+      | some (t, r) => .emit t .objColon stack r
+      | none => .bad false
+    else if !valueAllowed st then .bad false
+    else
+      match scanScalar (c :: rest) with
+      | some (t, r) => .emit t (valueEnd st) stack r
+      | none => .bad false
+
 /-- repeated `Token()` -/
 def tokLoop : Nat → TS → List TS → Bytes → List Item
   | 0, _, _, _ => [.fuel]
   | fuel + 1, st, stack, inp =>
-    match skipWs inp with
-    | [] => []
-    | c :: rest =>
-      if c = 0x5B then
-        if valueAllowed st then .tok .lk :: tokLoop fuel .arrStart (st :: stack) rest
-        else [.bad false]
-      else if c = 0x5D then
-        if st = .arrStart ∨ st = .arrComma then
-          match stack with
-          | [] => [.bad true]
-          | s :: stack' => .tok .rk :: tokLoop fuel (valueEnd s) stack' rest
-        else [.bad true]
-      else if c = 0x7B then
-        if valueAllowed st then .tok .lb :: tokLoop fuel .objStart (st :: stack) rest
-        else [.bad false]
-      else if c = 0x7D then
-        if st = .objStart ∨ st = .objComma then
-          match stack with
-          | [] => [.bad true]
-          | s :: stack' => .tok .rb :: tokLoop fuel (valueEnd s) stack' rest
-        else [.bad true]
-      else if c = 0x3A then
-        if st = .objColon then tokLoop fuel .objValue stack rest else [.bad false]
-      else if c = 0x2C then
-        if st = .arrComma then tokLoop fuel .arrValue stack rest
-        else if st = .objComma then tokLoop fuel .objKey stack rest
-        else [.bad false]
-      else if c = 0x22 ∧ (st = .objStart ∨ st = .objKey) then
-        match scanScalar (c :: rest) with
-        | some (t, r) => .tok t :: tokLoop fuel .objColon stack r
-        | none => [.bad false]
-      else if !valueAllowed st then [.bad false]
-      else
-        match scanScalar (c :: rest) with
-        | some (t, r) => .tok t :: tokLoop fuel (valueEnd st) stack r
-        | none => [.bad false]
+    match tokStep st stack inp with
+    | .eof => []
+    | .bad closer => [.bad closer]
+    | .emit t st' stack' rest => .tok t :: tokLoop fuel st' stack' rest
+    | .skip st' stack' rest => tokLoop fuel st' stack' rest
 
 /-- every iteration consumes at least one byte, so `length + 1` iterations suffice
 (the last one sees the end of input). -/
